@@ -183,7 +183,12 @@ class PresenceResourceService(BaseResourceServiceImpl):
             if content != data:
                 _LOGGER.info('Content different: %s - old: %s, new: %s',
                              path, content, data)
-                zkutils.update(self.zkclient, path, data)
+                try:
+                    zkutils.update(self.zkclient, path, data)
+                except kazoo.client.NoNodeError:
+                    # The node was there when we read it, but now it is gone.
+                    self.retry_request(rsrc_id)
+                    return False
 
             _LOGGER.info('Node is up to date: %s - %s', path, session_id)
 
